@@ -186,6 +186,10 @@ func (p *storProxy) Iterate(h func(oid.Address, []byte) error, eh func(oid.Addre
 }
 
 func (p *storProxy) Close() error {
+	if p.w.gateSwitch {
+		// (a mode switch in progress, holding the shard's write lock, is a scheduling point)
+		p.w.k.Gate("blob:close")
+	}
 	if p.w.mf.blobClose {
 		p.w.r.Fired("blob storage close fails")
 		return errSimIO
@@ -207,6 +211,9 @@ type wcProxy struct {
 }
 
 func (p *wcProxy) SetMode(m mode.Mode) error {
+	if p.w.gateSwitch {
+		p.w.k.Gate("wc:setmode")
+	}
 	if p.w.mf.wcSwitch {
 		p.w.r.Fired("write-cache mode switch fails")
 		return errSimIO
@@ -337,6 +344,7 @@ type shWorld struct {
 	mf          modeFaults // component failures injected into mode switches
 	touched     map[int]bool
 	postGates   bool // park also after mutating component calls
+	gateSwitch  bool // park inside mode switches (component close / write-cache switch)
 }
 
 func newShWorld(r *simkit.R, cfg shCfg, nids int) *shWorld {
